@@ -3,6 +3,7 @@
 package main
 
 import (
+	"sync/atomic"
 	"encoding/base64"
 	"fmt"
 	mrand "math/rand"
@@ -110,7 +111,7 @@ type vpSched struct {
 
 // refreshWorld builds a Redis-backed world whose upstream sees the access token, with scripts warmed up.
 func vpRefreshWorld() (*vpWorld, error) {
-	w, err := vpNewWorld(&vpCfg{Store: "redis", Refresh: 3600, Legacy: map[string]bool{"passAccessToken": true}})
+	w, err := vpNewWorld(&vpCfg{Store: "redis", Refresh: 3600, Legacy: map[string]bool{"passAccessToken": true, "setXAuthRequest": true}})
 	if err != nil {
 		return nil, err
 	}
@@ -124,7 +125,7 @@ func vpRefreshWorld() (*vpWorld, error) {
 	}
 	w.get(j, "/warm")
 	// a second proxy instance on the same Redis and provider (horizontal deployment): every other request of a behaviour goes to it
-	tw, err := vpNewWorld(&vpCfg{Store: "redis", Refresh: 3600, Legacy: map[string]bool{"passAccessToken": true}, shareRedis: w.mr, shareIdP: w.idp})
+	tw, err := vpNewWorld(&vpCfg{Store: "redis", Refresh: 3600, Legacy: map[string]bool{"passAccessToken": true, "setXAuthRequest": true}, shareRedis: w.mr, shareIdP: w.idp})
 	if err != nil {
 		return nil, err
 	}
@@ -243,19 +244,32 @@ func vpRunRefreshBehaviour(w *vpWorld, mode string, stale bool, n int, steps []v
 	}()
 
 	results := make([]*vpResp, n+1)
+	behaviourNo := atomic.AddInt64(&vpBehaviourSeq, 1)
 	start := func(r int) {
 		go func() {
 			inst := w
 			if w.twin != nil && r%2 == 0 {
 				inst = w.twin
 			}
-			resp := inst.do(vpReq{Target: "/private", Cookie: cookie})
+			// the requests also alternate between a proxied path and the auth-only endpoint (same session loader, other handler)
+			authonly := (r+int(behaviourNo))%2 == 0
+			target := "/private"
+			if authonly {
+				target = w.prefix() + "/auth"
+			}
+			resp := inst.do(vpReq{Target: target, Cookie: cookie})
 			results[r] = resp
 			gen := -1
-			if resp.UpLast != nil {
+			served := resp.UpHits > 0
+			if authonly {
+				served = resp.Status == 202
+				if served {
+					gen = vpGenOfToken(resp.Header.Get("X-Auth-Request-Access-Token"))
+				}
+			} else if resp.UpLast != nil {
 				gen = vpGenOfToken(resp.UpLast.Header.Get("X-Forwarded-Access-Token"))
 			}
-			tr.add(map[string]interface{}{"kind": "done", "r": r, "ok": resp.UpHits > 0, "gen": gen, "status": resp.Status,
+			tr.add(map[string]interface{}{"kind": "done", "r": r, "ok": served, "gen": gen, "status": resp.Status,
 				"cleared": w.sessionCookieEffect(resp) == "cleared", "panic": resp.Panic != ""})
 			sc.done <- r
 		}()
@@ -370,7 +384,7 @@ func vpRunRefreshBehaviour(w *vpWorld, mode string, stale bool, n int, steps []v
 	tr.add(map[string]interface{}{"kind": "late", "r": 0, "ok": late.UpHits > 0, "gen": gen, "status": late.Status})
 	served, calls := 0, 0
 	for r := 1; r <= n; r++ {
-		if results[r] != nil && results[r].UpHits > 0 {
+		if results[r] != nil && (results[r].UpHits > 0 || results[r].Status == 202) {
 			served++
 		}
 	}
@@ -462,3 +476,5 @@ func init() {
 		}
 	})
 }
+
+var vpBehaviourSeq int64
